@@ -139,11 +139,12 @@ func propC03Resume(t *rapid.T) {
 		if cp == nil {
 			return 0
 		}
-		f := tsoutil.ComposeTS(cp.timeMs+1, 0)
-		if cp.sourceTs > f {
-			f = cp.sourceTs
-		}
-		return f
+		// the recorded time of the checkpoint + 1 ms, either as the seek time (source clock ahead) or as the channel start time
+		// (source clock behind). The source time of the checkpoint is NOT a floor: a stream whose source clock is ahead lifts
+		// the channel clock only once it delivers its next pack, and another stream may deliver first (a thorough run met this:
+		// the closing tick 051.3 before the stop came from a tick-only pack, the best checkpoint gave 051.0, the other
+		// stream delivered first at 051.1).
+		return tsoutil.ComposeTS(cp.timeMs+1, 0)
 	}
 	if known("F-C03-resume-order") {
 		best, bestF := -1, uint64(0)
